@@ -60,6 +60,8 @@ def count_constructs(body, acc):
                 count_constructs(b, acc)
         elif s[0] == "fsm":
             for _, b in s[2]:
+                if any(x[0] == "fsm" for x in b):
+                    acc["nested-fsm"] = acc.get("nested-fsm", 0) + 1
                 count_constructs(b, acc)
         elif s[0] == "assign":
             acc["lhs:" + s[1][0]] = acc.get("lhs:" + s[1][0], 0) + 1
@@ -85,6 +87,6 @@ def parts(tier):
 
 
 REQUIRED = ["c02:if", "c02:else", "c02:switch", "c02:default", "c02:case-after-default", "c02:case-empty",
-            "c02:case-dontcare", "c02:case-multi", "c02:fsm", "c02:next", "c02:lhs:slice", "c02:lhs:cat",
+            "c02:case-dontcare", "c02:case-multi", "c02:fsm", "c02:nested-fsm", "c02:next", "c02:lhs:slice", "c02:lhs:cat",
             "c02:lhs:bsel", "c02:lhs:wsel", "c02:lhs:arr", "c02:lhs:u", "c02:lhs:rol", "c02:multi-branch-taken",
             "c02:reset-asserted"]
